@@ -170,7 +170,7 @@ class World:
         "bind-total", "bind-partial", "bind-reject", "bind-self-alias", "dicke", "dicke-invalid", "flip-cold", "flip-warm",
         "save-load-ok", "ctor-reject", "ctor-accept-sym", "grey-band", "torn-file-load", "type-invalid",
         "mask-assign", "drift-step", "value-kind-mismatch", "shared-storage-pair", "flipped-joins-pool",
-        "alloc-fault-setitem", "alloc-fault-bind",
+        "alloc-fault-setitem", "alloc-fault-bind", "ctor-real-input", "numpy-complex-scalar-assigned",
     ]
 
     # ------------------------------------------------------------ generation
@@ -216,8 +216,25 @@ class World:
 
     def _gen_new(self, r, cfg, force_valid=False):
         dim = 2 ** cfg["n"]
-        kind = r.choice(["num", "num", "sym", "mixed"]) if force_valid else r.choices(
-            ["num", "sym", "mixed", "badlen", "unnorm", "overmass", "grey", "symnum", "nonfinite"], [4, 3, 3, 1, 1, 1, 1, 1, 0.6])[0]
+        kind = r.choice(["num", "num", "sym", "mixed", "real"]) if force_valid else r.choices(
+            ["num", "sym", "mixed", "badlen", "unnorm", "overmass", "grey", "symnum", "nonfinite", "real", "tiny"], [4, 3, 3, 1, 1, 1, 1, 1, 0.6, 1.5, 0.8])[0]
+        if kind == "real":
+            # real amplitudes handed over as Python floats / a float64 array (a wavefunction does not have to be born complex)
+            v = [complex(x.real) for x in self._rand_unit(r, dim)]
+            nrm = math.sqrt(sum(abs(x) ** 2 for x in v)) or 1.0
+            if all(x == 0 for x in v):
+                v[0], nrm = 1 + 0j, 1.0
+            return {"op": "new", "args": {"kind": "real", "entries": [[x.real / nrm, 0.0] for x in v], "real_as": r.choice(["floats", "f64", "f64"])}}
+        if kind == "tiny":
+            # one amplitude far below the square root of every tolerance in sight, the others carrying the rest
+            v = self._rand_unit(r, dim)
+            eps = r.choice([1e-5, 3e-6, 1e-7, 1e-9])
+            if dim > 1:
+                i = r.randrange(dim)
+                rest = math.sqrt(sum(abs(x) ** 2 for j, x in enumerate(v) if j != i))
+                f = math.sqrt(1 - eps * eps) / rest if rest > 0 else 1.0
+                v = [x * f if j != i else complex(eps) * (x / abs(x) if abs(x) > 0 else 1) for j, x in enumerate(v)]
+            return {"op": "new", "args": {"kind": "tiny", "entries": [[x.real, x.imag] for x in v]}}
         if kind == "nonfinite":
             v = self._rand_unit(r, dim)
             bad = r.choice([[float("nan"), 0.0], [0.0, float("nan")], [float("inf"), 0.0], [float("-inf"), 0.0]])
@@ -320,6 +337,7 @@ class World:
             # entries in starting at the index; whatever happens, a raised error must leave the object untouched
             val["as"] = r.choice(["list1", "list2", "list3", "arr2", "mat2"])
             val["extra"] = [[r.uniform(-1, 1), r.uniform(-1, 1)] for _ in range(2)]
+        val["npc"] = r.random() < 0.4
         s = {"op": "setitem", "args": {"w": r.randrange(64), "idx": idx, "val": val}}
         if cfg["faults"] != "none" and r.random() < 0.12:
             # a numpy allocation requested by the library while it re-validates fails (MemoryError)
@@ -510,6 +528,11 @@ class World:
             free |= set(getattr(e, "free_symbols", set()))
         symbolic = bool(free)  # sympy numbers alone convert to a numeric array
         arg = entries if (has_expr or ctx.rng(step).random() < 0.5) else np.array(entries, dtype=complex)
+        if a.get("real_as") and not has_expr:
+            arg = [float(complex(e).real) for e in entries]
+            if a["real_as"] == "f64":
+                arg = np.array(arg, dtype=np.float64)
+            ctx.probe("ctor-real-input")
         ok, res = call(W, arg)
         ctx.called("Wavefunction()")
         lenok = bin(len(entries)).count("1") == 1
@@ -690,6 +713,9 @@ class World:
                 ctx.probe("value-kind-mismatch")
             elif "int" in a["idx"]:
                 arg = newvals[0]
+                if val.get("npc") and isinstance(arg, complex):
+                    arg = np.complex128(arg)   # a numpy scalar, as arithmetic on arrays hands them out
+                    ctx.probe("numpy-complex-scalar-assigned")
             else:
                 arg = list(newvals) if ctx.rng(step).random() < 0.5 or m.symbolic or type_invalid else np.array(newvals, dtype=complex)
                 if not positions:
@@ -899,7 +925,7 @@ class World:
                 p = np.array(obj.get_probabilities(), dtype=complex).reshape(-1)
                 for i in range(dim):
                     want = abs(complex(m.entries[i])) ** 2
-                    ctx.check(abs(p[i] - want) <= 1e-12, "refine", "probabilities", f"p[{i}] = {p[i]!r}, |a|^2 = {want!r}")
+                    ctx.check(abs(p[i] - want) <= 1e-12 * want + 1e-300, "refine", "probabilities", f"p[{i}] = {p[i]!r}, |a|^2 = {want!r}")
                 ctx.check(abs(float(np.sum(p).real) - 1.0) < TOL_BAD, "invariant", "probabilities-sum", f"sum p = {np.sum(p)!r}")
                 op = obj.get_outcome_probs()
                 ctx.check(len(op) == dim, "refine", "outcome-probs-size", f"{len(op)} outcomes")
@@ -908,7 +934,8 @@ class World:
                     got = op.get(key)
                     ctx.check(got is not None, "refine", "outcome-probs-key", f"missing key {key!r} in {sorted(op)}")
                     g = complex(np.asarray(got).reshape(-1)[0])
-                    ctx.check(abs(g - abs(complex(m.entries[i])) ** 2) <= 1e-12, "refine", "outcome-probs", f"{key}: {g!r}")
+                    want = abs(complex(m.entries[i])) ** 2   # "probabilities are the squared magnitudes": also the tiny ones
+                    ctx.check(abs(g - want) <= 1e-12 * want + 1e-300, "refine", "outcome-probs", f"{key}: {g!r}, |a|^2 = {want!r}")
             else:
                 flat = list(np.asarray(amps, dtype=object).reshape(-1))
                 for i, (x, y) in enumerate(zip(flat, m.entries)):
